@@ -4,21 +4,33 @@
        transact / transactOnConn  (core/stores/sqlx/tx.go)        connProv; begin; defer{recover..}; fn
    together with the parts of its environment that decide the outcome:
        database/sql   Begin is retried on driver.ErrBadConn (3 attempts in all), a
-                      connection that cannot be opened fails Begin without reaching the database
-       the body       any sequence of <= MaxStmts statements (each ok or failing, of several
-                      kinds), then returns nil / returns an error / panics -- independently of
-                      whether its statements failed (a body may swallow a statement error)
-       the database   Commit / Rollback succeed or fail
+                      connection that cannot be opened fails Begin without reaching the database;
+                      a statement issued with a context that is done is refused before it reaches
+                      the database; sql.DB.Begin() does NOT tie the transaction to the caller's
+                      context, so Commit/Rollback are unaffected by it
+       the body       any sequence of <= MaxStmts statements (each ok or failing WITH SOME ERROR
+                      VALUE, of several kinds), then returns nil / returns an error / panics --
+                      independently of whether its statements failed (a body may swallow a
+                      statement error)
+       the database   Commit / Rollback succeed or fail (with some error value)
+       the caller     its context (TransactCtx) may be cancelled or hit its deadline before the
+                      call or between any two statements of the body (incl. just before the body
+                      returns)
    Every step is recorded with TxOnce!Observe; TLC checks for ALL fault placements (begin fails,
-   k-th statement fails, body fails/panics after k statements, commit fails, rollback fails, and
-   every combination) that no guard of TxOnce is violated (NoDeviation) and that the declarative
+   k-th statement fails, body fails/panics after k statements, commit fails, rollback fails, the
+   context ends after k statements, every error identity at every fault point, and every
+   combination) that no guard of TxOnce is violated (NoDeviation) and that the declarative
    clauses hold (PropertyHolds).
 
    The environment choices are collected in `script`; with Emit = TRUE every complete
    behaviour prints its script once -- these fault scripts are replayed on the real code.
 
-   Variant = "ok" is the algorithm as it is in /repo.  The other variants are seeded defects
-   (documented counterexamples: TLC must find a violation for each).                         *)
+   Variant = "ok" is the algorithm as it is in /repo.  Variant = "boundTx" is a different but
+   legitimate algorithm (begin with sql.DB.BeginTx(ctx): the transaction is bound to the caller's
+   context and database/sql rolls it back asynchronously when that context is done): it must
+   satisfy the property too -- this pins down that the allowance Excused() of TxOnce is exactly
+   what database/sql does on its own.  The other variants are seeded defects (documented
+   counterexamples: TLC must find a violation for each).                                      *)
 EXTENDS TxOnce, Json
 
 CONSTANTS
@@ -29,7 +41,13 @@ CONSTANTS
                \* or one the connection's breaker finds acceptable: "norows" "notfound" "canceled" "txdone"
   PanicKinds,  \* what a panicking body panics with: "str" | "err" | "rt" (a runtime error)
   Breaker,     \* TRUE: the connection's circuit breaker may reject the call
-  Emit         \* TRUE: print scripts
+  Emit,        \* TRUE: print scripts
+  BeginOuts,   \* answers to a Begin attempt: "ok", "bad" (driver.ErrBadConn: retried), "noconn", "fail"
+               \* (ordinary error), "f:<id>" (fails with the error value <id>, see StmtErrs)
+  StmtErrs,    \* error value of a failing statement: "plain" (an ordinary error), "bad" (driver.ErrBadConn),
+               \* "txdone" "norows" "canceled" "deadline" "eof" "conndone" (the sentinel errors)
+  FinErrs,     \* error value of a failing Commit / Rollback (same names)
+  CtxKinds     \* how the caller's context may end: subset of {"cancel", "deadline"}; {}: it never does
 
 VARIABLES
   pc,       \* control point in TransactCtx/transactOnConn
@@ -37,89 +55,137 @@ VARIABLES
   ipanic,   \* the body panicked (recover() will return non-nil in the deferred function)
   irep,     \* which end failures the returned error carries
   att,      \* Begin attempts made by database/sql so far
+  icx,      \* the caller's context: "live" | "cancel" | "deadline"
+  ibad,     \* errors.Is(err, driver.ErrBadConn) holds for the error transact is returning
+  iretried, \* (seeded defect retryOnBadConn only) the transaction was already replayed once
   script    \* environment choices so far
 
-ivars == <<pc, ierr, ipanic, irep, att, script>>
-vars  == <<cs, dev, pc, ierr, ipanic, irep, att, script>>
+ivars == <<pc, ierr, ipanic, irep, att, icx, ibad, iretried, script>>
+vars  == <<cs, dev, pc, ierr, ipanic, irep, att, icx, ibad, iretried, script>>
 
 T == 1
 Rec(ev) == Observe(T, ev)
 Quiet   == UNCHANGED <<cs, dev>>
+NoCx    == [at |-> "none", k |-> 0, how |-> "none"]
+CtxIsDone == icx # "live"
 
 IInit ==
   /\ cs = (T :> NewCall) /\ dev = FALSE
   /\ pc = "transactCtx" /\ ierr = "nil" /\ ipanic = FALSE /\ irep = {} /\ att = 0
-  /\ script = [begin |-> <<>>, stmts |-> <<>>, end |-> "none", ek |-> "none", fin |-> "none"]
+  /\ icx = "live" /\ ibad = FALSE /\ iretried = FALSE
+  /\ script = [begin |-> <<>>, stmts |-> <<>>, end |-> "none", ek |-> "none", fin |-> "none", fk |-> "none",
+               cx |-> NoCx]
+
+\* the caller's context ends before the call ...
+CtxDonePre(how) ==
+  /\ pc = "transactCtx" /\ ~CtxIsDone /\ how \in CtxKinds
+  /\ Rec(Ev("ctxDone", ""))
+  /\ icx' = how
+  /\ script' = [script EXCEPT !.cx = [at |-> "pre", k |-> 0, how |-> how]]
+  /\ UNCHANGED <<pc, ierr, ipanic, irep, att, ibad, iretried>>
+
+\* ... or while the body runs, after k = Len(script.stmts) statements (k = all of them: just
+\* before the body returns, i.e. before the deferred commit/rollback)
+CtxDoneBody(how) ==
+  /\ pc = "body" /\ ~CtxIsDone /\ how \in CtxKinds
+  /\ Rec(Ev("ctxDone", ""))
+  /\ icx' = how
+  /\ script' = [script EXCEPT !.cx = [at |-> "body", k |-> Len(script.stmts), how |-> how]]
+  /\ UNCHANGED <<pc, ierr, ipanic, irep, att, ibad, iretried>>
+
+\* db.brk.DoWithAcceptableCtx: ctx is done -> ctx.Err(), nothing runs
+CtxReject ==
+  /\ pc = "transactCtx" /\ CtxIsDone
+  /\ pc' = "return" /\ ierr' = "err"
+  /\ Quiet /\ UNCHANGED <<ipanic, irep, att, icx, ibad, iretried, script>>
 
 \* db.brk.DoWithAcceptableCtx: the breaker refuses -> ErrServiceUnavailable, nothing runs
 BreakerReject ==
-  /\ pc = "transactCtx" /\ Breaker
+  /\ pc = "transactCtx" /\ Breaker /\ ~CtxIsDone
   /\ pc' = "return" /\ ierr' = "err"
   /\ script' = [script EXCEPT !.begin = <<"reject">>]
-  /\ Quiet /\ UNCHANGED <<ipanic, irep, att>>
+  /\ Quiet /\ UNCHANGED <<ipanic, irep, att, icx, ibad, iretried>>
 
 BreakerAccept ==
-  /\ pc = "transactCtx"
+  /\ pc = "transactCtx" /\ ~CtxIsDone
   /\ pc' = "begin"
-  /\ Quiet /\ UNCHANGED <<ierr, ipanic, irep, att, script>>
+  /\ Quiet /\ UNCHANGED <<ierr, ipanic, irep, att, icx, ibad, iretried, script>>
 
 \* conn, err := db.connProv(); tx, err = b(conn)  --  database/sql: db.Begin()
 \*   o = "noconn": no connection can be opened (or connProv fails): the database sees nothing
 \*   o = "bad"   : the driver answers driver.ErrBadConn: database/sql retries (3 attempts)
-\*   o = "fail"  : Begin fails with an ordinary error
+\*   o = "fail" / "f:<id>" : Begin fails with an ordinary error / the error value <id>
 DbBegin(o) ==
   /\ pc = "begin"
   /\ script' = [script EXCEPT !.begin = Append(@, o)]
   /\ att' = att + 1
-  /\ IF o = "noconn" THEN Quiet ELSE Rec(Ev("begin", IF o = "ok" THEN "ok" ELSE "fail"))
-  /\ LET givesUp == o \in {"fail", "noconn"} \/ (o = "bad" /\ att + 1 >= 3) IN
+  /\ IF o = "noconn" THEN Quiet
+     ELSE Rec(Ev("begin", IF o # "ok" THEN "fail" ELSE IF Variant = "boundTx" THEN "okb" ELSE "ok"))
+  /\ LET givesUp == o \notin {"ok", "bad"} \/ (o = "bad" /\ att + 1 >= 3) IN
        /\ pc' = IF o = "ok" THEN "fn"
                 ELSE IF ~givesUp THEN "begin"
                 ELSE IF Variant = "bodyWithoutBegin" THEN "fn" ELSE "return"
        /\ ierr' = IF o = "ok" \/ ~givesUp THEN ierr ELSE "err"
-  /\ UNCHANGED <<ipanic, irep>>
+       /\ ibad' = (givesUp /\ o = "bad")
+  /\ UNCHANGED <<ipanic, irep, icx, iretried>>
 
 \* return fn(ctx, tx)
 Fn ==
   /\ pc = "fn" /\ pc' = "body"
   /\ Rec(Ev("body", ""))
-  /\ UNCHANGED <<ierr, ipanic, irep, att, script>>
+  /\ UNCHANGED <<ierr, ipanic, irep, att, icx, ibad, iretried, script>>
 
-\* one statement of the body; "nest" = NewSqlConnFromSession(tx).Transact(..) -> errCantNestTx
-BodyStmt(kind, ok) ==
+\* one statement of the body; "nest" = NewSqlConnFromSession(tx).Transact(..) -> errCantNestTx.
+\* ek = the error value the database answers with ("none": the statement succeeds).
+\* A statement issued after the context ended is refused by database/sql (Tx.grabConn) and never
+\* reaches the database; the same holds when the (context-bound) transaction is already over.
+BodyStmt(kind, ok, ek) ==
   /\ pc = "body" /\ Len(script.stmts) < MaxStmts
   /\ kind = "nest" => ok
-  /\ IF kind = "nest" THEN Rec(Ev("nest", "refused")) ELSE Rec(Ev("stmt", OkFail(ok)))
-  /\ script' = [script EXCEPT !.stmts = Append(@, [kind |-> kind, ok |-> ok])]
-  /\ UNCHANGED <<pc, ierr, ipanic, irep, att>>
+  /\ IF ok THEN ek = "none" ELSE ek \in StmtErrs
+  /\ LET refused == kind # "nest" /\ (CtxIsDone \/ (Variant = "boundTx" /\ cs[T].tx # "open")) IN
+       /\ refused => ok           \* (what the database would have answered is immaterial)
+       /\ IF refused THEN Quiet
+          ELSE IF kind = "nest" THEN Rec(Ev("nest", "refused")) ELSE Rec(Ev("stmt", OkFail(ok)))
+  /\ script' = [script EXCEPT !.stmts = Append(@, [kind |-> kind, ok |-> ok, ek |-> ek])]
+  /\ UNCHANGED <<pc, ierr, ipanic, irep, att, icx, ibad, iretried>>
 
 \* the body returns nil / an error (of kind ek), or panics (with a value of kind ek)
 EndKinds(how) == IF how = "err" THEN ErrKinds ELSE IF how = "panic" THEN PanicKinds ELSE {"none"}
+LastStmtBad == Len(script.stmts) > 0 /\ script.stmts[Len(script.stmts)].ek = "bad"
 BodyFinish(how, ek) ==
   /\ pc = "body" /\ pc' = "defer"
   /\ ek \in EndKinds(how)
   /\ Rec(Ev("bodyEnd", how))
   /\ ierr' = IF how = "nil" THEN "nil" ELSE "err"
   /\ ipanic' = (how = "panic")
+  \* a "plain" body error is the error of its last statement, if that one failed
+  /\ ibad' = (how = "err" /\ (ek = "bad" \/ (ek = "plain" /\ LastStmtBad)))
   /\ script' = [script EXCEPT !.end = how, !.ek = ek]
-  /\ UNCHANGED <<irep, att>>
+  /\ UNCHANGED <<irep, att, icx, iretried>>
 
 AnyStmtFailed == \E i \in DOMAIN script.stmts : ~script.stmts[i].ok
 
-\* the deferred function of transactOnConn; fin = does the Commit/Rollback succeed
-Defer(fin) ==
+\* the deferred function of transactOnConn; fin = does the Commit/Rollback succeed, fk = its error value
+Defer(fin, fk) ==
   /\ pc = "defer" /\ pc' = "return"
-  /\ UNCHANGED <<ipanic, att>>
+  /\ IF fin THEN fk = "none" ELSE fk \in FinErrs
+  /\ UNCHANGED <<ipanic, att, icx, iretried>>
   /\ LET rollback(res, rep) == /\ Rec(Ev("rollback", OkFail(fin)))
                                /\ ierr' = res /\ irep' = rep
-                               /\ script' = [script EXCEPT !.fin = OkFail(fin)]
+                               /\ ibad' = (IF fin THEN ibad /\ ~ipanic ELSE fk = "bad")   \* "...rollback failed: %w"
+                               /\ script' = [script EXCEPT !.fin = OkFail(fin), !.fk = fk]
          commit(res, rep)   == /\ Rec(Ev("commit", OkFail(fin)))
                                /\ ierr' = res /\ irep' = rep
-                               /\ script' = [script EXCEPT !.fin = OkFail(fin)]
-         noEnd(res)         == /\ fin /\ Quiet /\ ierr' = res /\ irep' = {} /\ UNCHANGED script
+                               /\ ibad' = (fk = "bad")
+                               /\ script' = [script EXCEPT !.fin = OkFail(fin), !.fk = fk]
+         noEnd(res)         == /\ fin /\ Quiet /\ ierr' = res /\ irep' = {} /\ ibad' = FALSE /\ UNCHANGED script
          rbRep              == IF fin THEN {} ELSE {"rollback"}
      IN
-     IF ipanic THEN       \* if p := recover(); p != nil { tx.Rollback() ... err = fmt.Errorf("recover from ...") }
+     IF Variant = "boundTx" /\ cs[T].tx # "open" THEN
+       \* database/sql already rolled the transaction back: Commit/Rollback answer ErrTxDone
+       noEnd("err")
+     ELSE IF ipanic THEN       \* if p := recover(); p != nil { tx.Rollback() ... err = fmt.Errorf("recover from ...") }
        CASE Variant = "panicNotRecovered" -> noEnd("panic")
          [] Variant = "panicSwallowed"    -> rollback("nil", rbRep)
          [] Variant = "rollbackErrDropped"-> rollback("err", {})
@@ -134,21 +200,50 @@ Defer(fin) ==
      ELSE                        \* else { err = tx.Commit() }
        CASE Variant = "commitErrDropped"  -> commit("nil", {})
          [] Variant = "rollbackIfStmtFailed" /\ AnyStmtFailed -> rollback("err", rbRep)
+         \* seeded: "the caller has given up, don't commit on its behalf" -- and no rollback either
+         [] Variant = "ctxDoneNoEnd" /\ CtxIsDone    -> noEnd("err")
+         \* seeded: roll back a body that returned nil because the context is done
+         [] Variant = "ctxDoneRollback" /\ CtxIsDone -> rollback("err", rbRep)
+         \* context-bound transaction: sql.Tx.Commit answers ctx.Err() without reaching the
+         \* database; the rollback is database/sql's (EnvRollback), possibly after the return
+         [] Variant = "boundTx" /\ CtxIsDone         -> noEnd("err")
          [] OTHER                         -> commit(IF fin THEN "nil" ELSE "err", IF fin THEN {} ELSE {"commit"})
+
+\* Variant "boundTx" only: sql.Tx.awaitDone rolls a context-bound transaction back once the
+\* context is done -- at any later moment, also after Transact returned; its outcome is discarded
+EnvRollback(fin) ==
+  /\ Variant = "boundTx" /\ CtxIsDone /\ cs[T].tx = "open"
+  /\ pc \in {"body", "defer", "return", "done"}
+  /\ Rec(Ev("rollback", OkFail(fin)))
+  /\ UNCHANGED ivars
+
+\* seeded defect retryOnBadConn: TransactCtx replays transact() once when its error matches
+\* driver.ErrBadConn ("stale pooled connection")
+Retry ==
+  /\ Variant = "retryOnBadConn" /\ pc = "return" /\ ibad /\ ~iretried
+  /\ pc' = "begin" /\ att' = 0 /\ ierr' = "nil" /\ ipanic' = FALSE /\ irep' = {}
+  /\ ibad' = FALSE /\ iretried' = TRUE
+  /\ Quiet /\ UNCHANGED <<icx, script>>
 
 IReturn ==
   /\ pc = "return" /\ pc' = "done"
   /\ Rec(RetEv(ierr, irep))
-  /\ UNCHANGED <<ierr, ipanic, irep, att, script>>
+  /\ UNCHANGED <<ierr, ipanic, irep, att, icx, ibad, iretried, script>>
+
+AllErrIds == {"none"} \cup StmtErrs \cup FinErrs
 
 INext ==
+  \/ \E how \in CtxKinds : CtxDonePre(how) \/ CtxDoneBody(how)
+  \/ CtxReject
   \/ BreakerReject
   \/ BreakerAccept
-  \/ \E o \in {"ok", "fail", "bad", "noconn"} : DbBegin(o)
+  \/ \E o \in BeginOuts : DbBegin(o)
   \/ Fn
-  \/ \E k \in Kinds, ok \in BOOLEAN : BodyStmt(k, ok)
+  \/ \E k \in Kinds, ok \in BOOLEAN, ek \in AllErrIds : BodyStmt(k, ok, ek)
   \/ \E how \in {"nil", "err", "panic"} : \E ek \in EndKinds(how) : BodyFinish(how, ek)
-  \/ \E fin \in BOOLEAN : Defer(fin)
+  \/ \E fin \in BOOLEAN, fk \in AllErrIds : Defer(fin, fk)
+  \/ \E fin \in BOOLEAN : EnvRollback(fin)
+  \/ Retry
   \/ IReturn
 
 ISpec == IInit /\ [][INext]_vars
@@ -156,13 +251,17 @@ ISpec == IInit /\ [][INext]_vars
 \* ---- what TLC checks ----
 NoDeviation  == ~dev
 ImplProperty == HistOK(cs[T].log)
-ImplTypeOK   == pc \in {"transactCtx", "begin", "fn", "body", "defer", "return", "done"} /\ att \in 0..3
+ImplTypeOK   == /\ pc \in {"transactCtx", "begin", "fn", "body", "defer", "return", "done"} /\ att \in 0..3
+                /\ icx \in {"live", "cancel", "deadline"} /\ ibad \in BOOLEAN /\ iretried \in BOOLEAN
 \* the recorded outcome is the one the algorithm computed
 Done == pc = "done" => cs[T].ret = ierr
+\* the algorithm in /repo never leaves the decision to the context: once it returned, the begun
+\* transaction was ended by exactly one Commit/Rollback of its own, whatever happened to ctx
+CtxBlind == pc = "done" /\ Variant = "ok" => CtxExcusesNothing /\ ~Excused(cs[T])
 
 \* everything the algorithm's next step depends on (Variant "ok"): hides script and history, so
 \* TLC covers bodies of unbounded length with MaxStmts huge (TxImplMCU.cfg)
-ImplView == <<pc, ierr, ipanic, irep, att, dev, StateView>>
+ImplView == <<pc, ierr, ipanic, irep, att, icx, ibad, iretried, dev, StateView>>
 
 \* ---- test generation: one fault script per complete behaviour ----
 \* (with the Layer-P history the model predicts for it: the runner reports how many replays on
